@@ -32,6 +32,8 @@ structure DocCase where
   frag : Option Items := none
   evs : List Ev
   res : Except Name Elem
+  /-- for an error: variant, position and inner error as the error value carries them -/
+  carried : Name := []
 
 structure HCase where
   docs : List DocCase
@@ -42,8 +44,8 @@ def fuelMax : Nat := 100000
 def pDoc : P DocCase := fun ts => do
   let ((dom, frag), ts) ← pDocOrFrag fuelMax ts
   let (evs, ts) ← pEvents ts
-  let (res, ts) ← pResult fuelMax ts
-  pure ({ doc := dom, frag := frag, evs := evs, res := res }, ts)
+  let ((res, carried), ts) ← pResult fuelMax ts
+  pure ({ doc := dom, frag := frag, evs := evs, res := res, carried := carried }, ts)
 
 def pRender : P (Options × Name) := fun ts => do
   let (o, ts) ← pOptions ts
@@ -160,6 +162,49 @@ where
     | [] => true
     | (_, e) :: rest => Elem.inAlphabet e && goKids rest
 
+/-! ### reading rendered text whatever its layout
+
+`readProgram` reads exactly the layout `printAST` prints (that is what `readProgram_printAST` is about). The
+properties say nothing about white space, so before a property is evaluated on a rendered text that `readProgram`
+cannot read, the text is brought into that layout: lines trimmed, blank lines dropped, a field broken over several
+lines joined, four spaces of indentation inside a struct, one blank line after it. Only white space between tokens
+is touched. -/
+def isSp (c : Char) : Bool := c == ' ' || c == '\t' || c == '\r'
+
+def trimSp (l : List Char) : List Char := ((l.dropWhile isSp).reverse.dropWhile isSp).reverse
+
+def splitLines (t : List Char) : List (List Char) :=
+  t.foldr (fun c acc => if c == '\n' then [] :: acc else match acc with
+    | [] => [[c]]
+    | l :: r => (c :: l) :: r) [[]]
+
+/-- join the pieces of a field written over several lines; `pending` is the field so far -/
+def joinFields : List (List Char) → Option (List Char) → List (List Char)
+  | [], none => []
+  | [], some p => [p]
+  | l :: rest, none =>
+    if l.take 4 == "pub ".toList && l.getLast? != some ',' && l.getLast? != some '{' then joinFields rest (some l)
+    else l :: joinFields rest none
+  | l :: rest, some p =>
+    let p' := if p.getLast? == some ':' then p ++ [' '] ++ l else p ++ l
+    if l.getLast? == some ',' then p' :: joinFields rest none else joinFields rest (some p')
+
+def reindent : List (List Char) → Bool → List Char
+  | [], _ => []
+  | l :: r, inBody =>
+    if l == ['}'] then ['}', '\n', '\n'] ++ reindent r false
+    else if inBody then "    ".toList ++ l ++ ['\n'] ++ reindent r true
+    else l ++ ['\n'] ++ reindent r (l.getLast? == some '{')
+
+def normLayout (t : Name) : Name :=
+  reindent (joinFields (((splitLines t).map trimSp).filter (fun l => !l.isEmpty)) none) false
+
+/-- `readProgram`, and if that fails `readProgram` of the text in `printAST`'s layout -/
+def readProgramN (t : Name) : Option (List PStruct) :=
+  match readProgram t with
+  | some p => some p
+  | none => readProgram (normLayout t)
+
 /-- renderer correspondence: the model renders the implementation's own final tree -/
 def renderCorr (tree : Option Elem) (rs : List (Options × Name)) : Verdict :=
   match tree with
@@ -176,6 +221,6 @@ def renderCorr (tree : Option Elem) (rs : List (Options × Name)) : Verdict :=
       else .ok)
 
 def readAll (rs : List (Options × Name)) : Option (List (Options × List PStruct)) :=
-  rs.mapM fun (o, t) => (readProgram t).map fun p => (o, p)
+  rs.mapM fun (o, t) => (readProgramN t).map fun p => (o, p)
 
 end Xsg.Driver
